@@ -262,9 +262,19 @@ def init (units : List LUnit) : State :=
 def putAll (qs : Nat → List (Kind × Dict)) (targets : List Nat) (m : Kind × Dict) : Nat → List (Kind × Dict) :=
   targets.foldl (fun q t => upd q t (q t ++ [m])) qs
 
-/-- listener: build `func_args`, fan out -/
+/-- a queue map as a value.  `putAll …` is a function-valued definition: compiled code keeps the partial application
+and would re-run the whole fan-out (and, nested, every earlier one) at each look-up – exponential in the number of
+undelivered occurrences.  `putAllQ` computes the same map once (`putAllQ_get` in `Lemmas/C08.lean` proves
+`(putAllQ qs ts m).get = putAll qs ts m`); `deliver` stores that value. -/
+structure QMap where
+  get : Nat → List (Kind × Dict)
+
+def putAllQ (qs : Nat → List (Kind × Dict)) (targets : List Nat) (m : Kind × Dict) : QMap :=
+  targets.foldl (fun q t => ⟨upd q.get t (q.get t ++ [m])⟩) ⟨qs⟩
+
+/-- listener: build `func_args`, fan out (`putAll`, evaluated once) -/
 def deliver (st : State) (o : Occ) : State :=
-  { st with queues := putAll st.queues (st.notify o.kind o.key) (o.kind, funcArgs o), log := st.log ++ [o] }
+  { st with queues := (putAllQ st.queues (st.notify o.kind o.key) (o.kind, funcArgs o)).get, log := st.log ++ [o] }
 
 /-- `call_action`: context, `create_task` (never awaited), `store_hass_context` in the new task -/
 def callAction (st : State) (u : Nat) (k : Kind) (args : Dict) : State :=
